@@ -11,11 +11,13 @@ RULE = ("enum: 12 predefined sizes x 20 residues (each residue alone and inside 
         "laws; user alphabets: total maps 20->20 (accepted, applied letter by letter, alphabet = set of images), one key removed, one value "
         "replaced by a non-amino-acid (lower case, two letters, digit, empty), non-dict non-empty containers (all rejected). Oracle: the "
         "harness's transcription of the documented partitions - the image of a residue is a member of its documented group, equal for all "
-        "members, distinct across groups; returned alphabet as a set equals the set of representatives. Half of the random cases run on an object that has already made other calls (in particular a reduction with a different total user alphabet). Non-trivial: the sequence contains >=2 "
+        "members, distinct across groups; returned alphabet as a set equals the set of representatives. 10% of the user-alphabet cases use sequences of 201-420 residues; user dictionaries may carry extra non-amino-acid keys; every returned alphabet list is modified by the harness after copying. Half of the random cases run on an object that has already made other calls (in particular a reduction with a different total user alphabet). Non-trivial: the sequence contains >=2 "
         "distinct residues that the alphabet merges (enum: every (size,residue) fact); distinct by (size/alphabet, sequences).")
 ASSUMPTIONS = ["PARTITIONS in vlc/ref.py transcribe the documented groups for sizes 2,3,4,5,6,8,10,11,12,15,18,20",
                "sizes are passed as integers (strings that parse as integers are not asserted either way)",
-               "user dictionaries with extra keys beyond the 20 amino acids are not asserted either way"]
+               "extra keys beyond the 20 amino acids in a user dictionary can never apply to a valid sequence: they neither rescue a dictionary "
+               "that lacks an amino acid nor change the reduction or the returned alphabet",
+               "the harness modifies every returned alphabet list after copying it (the caller owns a returned value)"]
 TECHNIQUE = "exhaustive enumeration (sizes x residues, all integer sizes) + Hypothesis property testing of algebraic laws (homomorphism, idempotence) and accept/reject of generated user alphabets against a model"
 LEVEL_TEXT = "Exploration: the finite table (12 sizes x 20 residues) and the size domain 0..25 are covered completely; laws and user alphabets are sampled."
 LEVEL_NOTE = "Trusts the transcribed partitions."
@@ -24,8 +26,16 @@ LEVEL_NOTE = "Trusts the transcribed partitions."
 def reduce_(seq, size=20, user=None, case=None):
     o = util.spw(seq, case or {})
     if user is not None:
-        return o.get_reduced_alphabet_sequence(userAlphabet=user)
-    return o.get_reduced_alphabet_sequence(size)
+        out = o.get_reduced_alphabet_sequence(userAlphabet=user)
+    else:
+        out = o.get_reduced_alphabet_sequence(size)
+    if isinstance(out, tuple) and len(out) == 2 and isinstance(out[1], list):
+        # the caller owns what it was handed: scribble on the returned list after taking a copy (a later call must not notice)
+        res = (out[0], list(out[1]))
+        del out[1][::2]
+        out[1].append("?")
+        return res
+    return out
 
 
 def check_table(ctx, case):
@@ -119,12 +129,16 @@ def hyp_case(draw, max_len):
     if kind == "laws":
         return {"kind": "laws", "a": draw(gens.sequences(max_len=max_len)), "b": draw(gens.sequences(max_len=max_len)),
                 "size": draw(st.sampled_from(SIZES)), "warm": draw(gens.warmups())}
-    seq = draw(gens.sequences(max_len=max_len))
+    seq = draw(gens.sequences(max_len=max_len)) if draw(st.integers(0, 9)) else "".join(draw(st.lists(st.sampled_from(list(ref.AA)), min_size=201, max_size=420)))
     nimg = draw(st.integers(1, 20))
     images = draw(st.lists(st.sampled_from(list(ref.AA)), min_size=nimg, max_size=nimg, unique=True))
     user = {a: draw(st.sampled_from(images)) for a in ref.AA}
-    how = draw(st.sampled_from(["valid", "valid", "missing-key", "bad-value", "non-dict"]))
-    warm = draw(gens.warmups())
+    how = draw(st.sampled_from(["valid", "valid", "valid-extra", "missing-key", "missing-key-extra", "bad-value", "non-dict"]))
+    if how in ("valid-extra", "missing-key-extra"):
+        for k in draw(st.lists(st.sampled_from(["B", "Z", "X", "U", "O", "a", "k", "w"]), min_size=1, max_size=3, unique=True)):
+            user[k] = draw(st.sampled_from(list(ref.AA)))
+        how = how.replace("-extra", "")
+    warm = draw(gens.warmups()) if len(seq) <= 60 else []
     if draw(st.booleans()):
         # the same object has just reduced with another total user alphabet (and perhaps a predefined one)
         warm = warm + [["get_reduced_alphabet_sequence", [20, draw(gens.user_alphabets())]]]
